@@ -251,6 +251,55 @@ impl World {
         (sent, msgs)
     }
 
+    /// Sends one batch with the given payloads (ids chosen by the harness) to a partition.
+    pub fn send_raw(&mut self, partition: u32, payloads: &[Vec<u8>]) -> Result<(), String> {
+        let mut msgs = Vec::new();
+        for p in payloads {
+            self.seq += 1;
+            msgs.push(Message::new(Some(5000 + self.seq as u128), Bytes::from(p.clone()), None));
+        }
+        let shared = self.node.shared();
+        let root = self.node.root.clone();
+        let r = self.node.try_block_on(async move {
+            let system = shared.read().await;
+            system
+                .append_messages(&root, sid(), sid(), Partitioning::partition_id(partition), msgs, None)
+                .await
+        });
+        let r = self.flatten(r);
+        if self.node.sys.is_some() {
+            self.node.quiesce(3);
+        }
+        r
+    }
+
+    /// Graceful restart into a different encryption setting (0 = off, 1 = key 1, 2 = key 2).
+    pub fn restart_with_encryption(&mut self, enc: u8) -> Result<(), String> {
+        self.admin = None;
+        self.maintain_cmd = None;
+        let stop = self.node.stop_clean(true);
+        self.cfg.encryption = enc;
+        match Node::start(&self.dir, &self.cfg, self.tr) {
+            Ok(n) => {
+                self.node = n;
+                stop
+            }
+            Err(e) => Err(format!("start failed: {e:?}")),
+        }
+    }
+
+    /// Creates a stream through the real TCP handler (journalled).
+    pub fn create_stream_tcp(&mut self, name: &str) -> Result<(), String> {
+        if self.admin.is_none() {
+            self.admin = Some(self.node.tcp_root_client());
+        }
+        let client = self.admin.as_ref().unwrap();
+        let r = self.node.try_block_on(async { client.create_stream(name, None).await.map(|_| ()) });
+        let r = self.flatten(r);
+        self.node.quiesce(2);
+        r
+    }
+
     pub fn send_to(&mut self, partition: u32, ids: Option<&[u8]>, n: usize) -> (Vec<Sent>, Result<(), String>) {
         let (sent, msgs) = self.mk_msgs(ids, n);
         let shared = self.node.shared();
